@@ -12,13 +12,17 @@
 (* ("data": evaluated content differs, "flags": only merge flags differ,    *)
 (* "err": error class / success differs) and printed with the trace id.     *)
 (***************************************************************************)
-EXTENDS AyBuild, IOUtils, TLCExt
+EXTENDS AyBuild, Props_C02, IOUtils, TLCExt
+
+CONSTANT Prop   \* which property's declarative formula is evaluated on the logged outcomes
 
 Traces == ndJsonDeserialize(IOEnv.TRACE_FILE)
+NoDocs == <<>>
 
-VARIABLES tid, l, verdict
+VARIABLES tid, l, verdict,
+          louts   \* the outcomes the library produced, as logged, stage by stage
 
-tvars == <<vars, tid, l, verdict>>
+tvars == <<vars, tid, l, verdict, louts>>
 
 RECURSIVE SDofJ(_)
 SDofJ(j) == [j EXCEPT !.md = {<<j.md[x][1], j.md[x][2]>> : x \in DOMAIN j.md},
@@ -35,6 +39,7 @@ TInit == /\ Init
          /\ tid \in 1..Len(Traces)
          /\ l = 1
          /\ verdict = "ok"
+         /\ louts = <<>>
 
 IsEvent(e) == l <= Len(Ev) /\ Ev[l].e = e /\ l' = l + 1
 
@@ -53,27 +58,53 @@ Judge(model, logged) ==
                     IN IF c = "ok" THEN "ok" ELSE c
 
 TAddSource == /\ IsEvent("AddSource")
-              /\ AddSource(SDofJ(Ev[l].sd), Ev[l].safe)
-              /\ UNCHANGED <<tid, verdict>>
+              /\ AddSource(0, SDofJ(Ev[l].sd), Ev[l].safe)
+              /\ UNCHANGED <<tid, verdict, louts>>
 TFlattenFirst == /\ IsEvent("FlattenFirst") /\ FlattenFirst
                  /\ Judge(acc', NodeOfJ(Ev[l].acc))
+                 /\ louts' = Append(louts, NodeOfJ(Ev[l].acc))
                  /\ UNCHANGED tid
 TMergeStage == /\ IsEvent("MergeStage") /\ MergeStage
                /\ Judge(acc', NodeOfJ(Ev[l].acc))
+               /\ louts' = Append(louts, NodeOfJ(Ev[l].acc))
                /\ UNCHANGED tid
-TFinish == /\ IsEvent("Finish") /\ Finish /\ UNCHANGED <<tid, verdict>>
+TFinish == /\ IsEvent("Finish") /\ Finish /\ UNCHANGED <<tid, verdict, louts>>
 
-TNext == TAddSource \/ TFlattenFirst \/ TMergeStage \/ TFinish
+\* The specification has already failed (a stage raised an error in the model)
+\* but the library went on: the remaining events are consumed without a model
+\* step so that the verdict stays total; the disagreement is an "err" verdict.
+TBeyondFailure ==
+    /\ phase = "failed" /\ l <= Len(Ev) /\ l' = l + 1
+    /\ verdict' = IF verdict = "ok" THEN "err" ELSE verdict
+    /\ louts' = IF "acc" \in DOMAIN Ev[l] THEN Append(louts, NodeOfJ(Ev[l].acc)) ELSE louts
+    /\ UNCHANGED <<vars, tid>>
+
+TNext == TAddSource \/ TFlattenFirst \/ TMergeStage \/ TFinish \/ TBeyondFailure
 
 TSpec == TInit /\ [][TNext]_tvars
 
-\* one line per trace, printed at the state where the whole trace is consumed
-\* (or where the specification can take no step that matches the next event)
+HistDocs  == [i \in 1..Len(hist) |-> hist[i].sd]
+HistSafes == [i \in 1..Len(hist) |-> hist[i].safe]
+
+\* the property's declarative formula evaluated on what the LIBRARY produced
+\* ("holds" / "violated"), or "outside" when the history is not in the
+\* property's stated domain
+PropVerdict ==
+    CASE Prop = "C02" -> IF C02_Holds(HistDocs, louts) THEN "holds" ELSE "violated"
+      [] OTHER -> "none"
+
+\* ... and on what the SPECIFICATION computed for the same history
+ModelVerdict ==
+    CASE Prop = "C02" -> IF C02_Holds(HistDocs, accs) THEN "holds" ELSE "violated"
+      [] OTHER -> "none"
+
+\* one line per trace, printed at the state where the whole trace is consumed.
+\* A trace for which no line appears was rejected: the specification could
+\* take no step matching the next logged event.
 Report ==
     (l = Len(Ev) + 1) =>
-        PrintT(<<"TRACE", Traces[tid].tid, verdict,
-                 IF verdict = "ok" THEN "" ELSE ToJson([model |-> accs, k |-> k])>>)
+        PrintT(<<"TRACE", Traces[tid].tid, verdict, PropVerdict, ModelVerdict,
+                 IF verdict = "ok" /\ PropVerdict # "violated" THEN ""
+                 ELSE ToJson([model |-> [j \in 1..Len(accs) |-> IF IsErr(accs[j]) THEN accs[j] ELSE accs[j]], k |-> k])>>)
 
-\* every trace must be consumed to its end: checked by the harness from the
-\* TRACE lines (a trace with no line was rejected by the specification)
 =============================================================================
